@@ -49,3 +49,24 @@ package cbe
 //@ structural cbe-writer-calls: only_callers (io.Writer).Write in cbe: cbe.(*Writer).writeBytes
 //@ structural cbe-stringwriter-calls: only_callers (io.StringWriter).WriteString in cbe: cbe.(*Writer).WriteString
 //@ structural cbe-reader-calls: only_callers (io.Reader).Read in cbe: cbe.(*normalizingReader).Read
+
+// Values whose bytes come from go-compact-time / go-compact-float: the scratch buffer handed to the
+// library is large enough for what the library says it needs, INCLUDING the type byte in front
+// (the libraries silently truncate or panic otherwise), and type byte + library bytes reach the output.
+//@ func (*Encoder).OnTime
+//@   use EPATH(_this)
+//@   requires value.Type <= 2 && value.Timezone.Type <= 5 && len(value.Timezone.ShortAreaLocation) <= 0x10000000
+//@   modifies _this.writer.Buffer, alloc
+//@   ensures value.Timezone.Type == 0 ==> outLen == old(outLen) + 1 && out[old(outLen)] == 0x7d
+//@   ensures value.Timezone.Type != 0 ==> outLen >= old(outLen) + 2 && outLen <= old(outLen) + 1 + uint64(ctSize(uint8(value.Type), value.Year, value.Nanosecond, uint8(value.Timezone.Type), len(value.Timezone.ShortAreaLocation))) && out[old(outLen)] == 0x7a + byte(value.Type)
+
+//@ func (*Writer).WriteDecimalFloat
+//@   use WPATH(_this)
+//@   requires !(value.Exponent == -0x80000000 && value.Coefficient != 0 && value.Coefficient != 1 && value.Coefficient != 5 && value.Coefficient != 2 && value.Coefficient != 6)
+//@   ensures outLen >= old(outLen) + 2 && outLen <= old(outLen) + 16 && out[old(outLen)] == 0x76
+
+//@ func (*Writer).WriteBigDecimalFloat
+//@   use WPATH(_this)
+//@   requires value != nil
+//@   modifies _this.Buffer, alloc
+//@   ensures outLen >= old(outLen) + 2 && outLen <= old(outLen) + 1 + uint64(cfBigMax(uint64(value))) && out[old(outLen)] == 0x76
